@@ -2,9 +2,11 @@
 (***************************************************************************)
 (* Virtual Memory System Architecture, short-descriptor format (ARM ARM    *)
 (* B3.5 TranslationTableWalkSD, B3.6 CheckDomain/CheckPermission, B3.2.1   *)
-(* FCSETranslate, B3.13 fault encodings).  The long-descriptor walk, stage *)
-(* 2 and faults taken to Hyp mode are reported as the named outcome        *)
-(* "unmodelled:<what>" (x.ni) and are not claimed.                         *)
+(* FCSETranslate, B3.13 fault encodings), the long-descriptor stage-1 walk *)
+(* and the stage-2 walk of the Virtualization Extensions (VTTBR / VTCR,    *)
+(* S2AttrDecode, CombineS1S2Desc, stage-2 translation of the stage-1 table *)
+(* walk's own descriptor addresses).  Hyp-mode stage 1 and faults taken to *)
+(* Hyp mode are reported as the named outcome "unmodelled:<what>" (x.ni).  *)
 (***************************************************************************)
 EXTENDS XCtx
 
@@ -20,6 +22,8 @@ TTBCR_EAE(s) == Bit(s.sys.TTBCR, 31)
 ReadDesc(s, pa) ==
   LET bs == HubRead(s.mem, pa, 4).bytes
   IN IF SCTLR_EE(s) = 1 THEN BytesToWord(Reverse(bs)) ELSE BytesToWord(bs)
+
+ReadDescAt(s, pa, ext) == IF ext # 0 THEN Zero ELSE ReadDesc(s, pa)
 
 \* memory type under TEX remap (SCTLR.TRE = 1): PRRR.TR<n>, n = TEX<0>:C:B -> "SO" | "DEV" | "NORMAL" | "UNK"
 RemapType(s, texcb) ==
@@ -44,6 +48,87 @@ RemapAttrs(s, texcb, sbit) ==
             [] tr = 2 -> MkAttr("NORMAL", ConvAttrs(ir), ConvHints(ir), ConvAttrs(or), ConvHints(or), sh, sh * (1 - nos), {})
             [] tr = 3 -> AttrUnknown
 
+
+-----------------------------------------------------------------------------
+(* Stage 2 (Virtualization Extensions, B3.6 TranslationTableWalkLD with stage1 = FALSE, SecondStageTranslate,         *)
+(* S2AttrDecode, CombineS1S2Desc): for Non-secure PL1&0 accesses with HCR.VM = 1 the stage-1 output (and the address *)
+(* of every stage-1 descriptor) is an intermediate physical address translated through the VTTBR tables.            *)
+(* Every stage-2 fault is taken to Hyp mode and reaches the emulator's documented unimplemented hooks: notimpl.      *)
+HCR_PTW(s)   == SysBit(s, "HCR", 2)
+VTCR_T0SZ(s) == LET v == Slice(s.sys.VTCR, 3, 0) IN IF v >= 8 THEN v - 16 ELSE v        \* SInt(VTCR.T0SZ)
+VTCR_SL0(s)  == Slice(s.sys.VTCR, 7, 6)
+Stage2On(s)  == s.cfg.virt /\ (~IsSecure(s)) /\ Mode(s) # HYP /\ HCR_VM(s) = 1
+\* bits hi..lo of the 40-bit address a = [pa (31:0), ext (39:32)]
+Slice40(a, hi, lo) == IF hi < 32 THEN Slice(a.pa, hi, lo)
+                      ELSE IF lo >= 32 THEN (a.ext \div 2^(lo - 32)) % 2^(hi - lo + 1)
+                      ELSE Slice(a.pa, 31, lo) + (a.ext % 2^(hi - 31)) * 2^(32 - lo)
+\* a stage-2 (and Hyp) descriptor is read with HSCTLR.EE endianness
+ReadDesc64H(s, pa, ext) ==
+  LET bs0 == IF ext # 0 THEN [i \in 1..8 |-> 0] ELSE HubRead(s.mem, pa, 8).bytes
+      bs  == IF HSCTLR_EE(s) = 1 THEN Reverse(bs0) ELSE bs0
+  IN [lo |-> BytesToWord(SubSeq(bs, 1, 4)), hi |-> BytesToWord(SubSeq(bs, 5, 8))]
+\* S2AttrDecode(MemAttr<3:0>), shareability from SH<1:0> for Normal memory
+S2Type(m) == IF m \div 4 = 0 THEN (CASE m = 0 -> "SO" [] m = 1 -> "DEV" [] OTHER -> "UNK") ELSE IF m % 4 = 0 THEN "UNK" ELSE "NORMAL"
+S2Attrs(m, shf) ==
+  LET hi2 == m \div 4  lo2 == m % 4
+      sh == shf \div 2   osh == B2N(shf = 2)
+  IN IF hi2 = 0 THEN (CASE m = 0 -> AttrSO [] m = 1 -> AttrDevice [] OTHER -> AttrUnknown)
+     ELSE IF lo2 = 0 THEN AttrUnknown
+     ELSE MkAttr("NORMAL", IF lo2 = 1 THEN 0 ELSE lo2, IF lo2 = 1 THEN 0 ELSE 3,
+                           IF hi2 = 1 THEN 0 ELSE hi2, IF hi2 = 1 THEN 0 ELSE 3, sh, osh, {})
+RECURSIVE WalkS2From(_, _, _, _, _, _, _)
+WalkS2From(s, ia, level, first, startbit, base, unp) ==
+  LET lsb   == 39 - 9 * level
+      index == IF first THEN Slice40(ia, startbit, lsb) ELSE Slice40(ia, lsb + 8, lsb)
+      la    == WOr(base[1], <<index \div 8192, (index % 8192) * 8>>)
+      d     == ReadDesc64H(s, la, base[2])
+  IN IF Bit(d.lo, 0) = 0 THEN [f |-> "TRANSLATION", level |-> level, unp |-> unp]
+     ELSE IF Bit(d.lo, 1) = 0 /\ level = 3 THEN [f |-> "TRANSLATION", level |-> level, unp |-> unp]
+     ELSE IF Bit(d.lo, 1) = 1 /\ level < 3
+     THEN WalkS2From(s, ia, level + 1, FALSE, startbit, <<WAnd(d.lo, <<MM, M - 4096>>), Slice(d.hi, 7, 0)>>, unp)
+     ELSE IF Bit(d.lo, 10) = 0 THEN [f |-> "ACCESS_FLAG", level |-> level, unp |-> unp]
+     ELSE [f |-> "ok", level |-> level, unp |-> unp \/ S2Type(Slice(d.lo, 5, 2)) = "UNK", hap |-> Slice(d.lo, 7, 6),
+           pa |-> IF lsb >= 32 THEN ia.pa ELSE WOr(WAnd(d.lo, TopMask(32 - lsb)), WAnd(ia.pa, MaskW(lsb - 1, 0))),
+           ext |-> Slice(d.hi, 7, 0),
+           mt |-> S2Type(Slice(d.lo, 5, 2)), at |-> S2Attrs(Slice(d.lo, 5, 2), Slice(d.lo, 9, 8))]
+\* ia = [pa, ext]: the 40-bit intermediate physical address
+WalkS2(s, ia) ==
+  LET t0  == VTCR_T0SZ(s)
+      sl0 == VTCR_SL0(s)
+      lb  == 14 - t0 - 9 * sl0
+      level == 2 - sl0
+      unp == (sl0 = 0 /\ t0 < -2) \/ (sl0 = 1 /\ t0 > 1) \/ sl0 >= 2 \/ Bit(s.sys.VTCR, 4) # B2N(t0 < 0)
+             \/ (lb > 3 /\ lb <= 32 /\ Slice(s.sys.VTTBR, lb - 1, 3) # 0)
+      inrange == t0 = -8 \/ Slice40(ia, 39, 32 - t0) = 0
+      base == <<WAnd(s.sys.VTTBR, TopMask(32 - lb)), Slice(s.sys.VTTBRH, 7, 0)>>
+  IN IF sl0 >= 2 \/ lb < 3 \/ lb > 31 THEN [f |-> "UNPRED", level |-> 1, unp |-> TRUE]
+     ELSE IF ~inrange THEN [f |-> "TRANSLATION", level |-> 1, unp |-> unp]
+     ELSE WalkS2From(s, ia, level, TRUE, 31 - t0, base, unp)
+\* CombineS1S2Desc on the attribute records (don't-cares of either side stay don't-cares)
+CombAttr(a1, a2) == IF a1 = 1 \/ a2 = 1 THEN -1 ELSE IF a1 = 0 \/ a2 = 0 THEN 0 ELSE IF a1 = 2 \/ a2 = 2 THEN 2 ELSE 3
+CombineAttrs(s1, s2) ==
+  IF "ty" \in s1.dc \/ "ty" \in s2.dc THEN AttrUnknown
+  ELSE IF s1.a.ty = "SO" \/ s2.a.ty = "SO" THEN AttrSO
+  ELSE IF s1.a.ty = "DEV" \/ s2.a.ty = "DEV" THEN MkAttr("DEV", 0, 0, 0, 0, 1, 1, {"ia", "ih", "oa", "oh"})
+  ELSE LET ia == CombAttr(s1.a.ia, s2.a.ia)  oa == CombAttr(s1.a.oa, s2.a.oa)
+           dcs == s1.dc \cup s2.dc
+           nc  == ia = 0 /\ oa = 0
+           sh  == IF nc THEN 1 ELSE IF s1.a.sh = 1 \/ s2.a.sh = 1 THEN 1 ELSE 0
+           osh == IF nc THEN 1 ELSE IF s1.a.osh = 1 \/ s2.a.osh = 1 THEN 1 ELSE 0
+       IN MkAttr("NORMAL", IF ia < 0 THEN 0 ELSE ia, s1.a.ih, IF oa < 0 THEN 0 ELSE oa, s1.a.oh, sh, osh,
+                 (s1.dc \cap {"ih", "oh"}) \cup (IF ia < 0 \/ "ia" \in dcs THEN {"ia", "sh", "osh"} ELSE {})
+                                          \cup (IF oa < 0 \/ "oa" \in dcs THEN {"oa", "sh", "osh"} ELSE {})
+                                          \cup (IF dcs \cap {"sh", "osh"} # {} THEN {"sh", "osh"} ELSE {}))
+\* SecondStageTranslate of the address of a stage-1 translation table descriptor: [ok, pa, ext, unp]
+\* (read access, HCR.PTW forbids tables in Device / Strongly-ordered memory)
+PTXlate(s, pa, ext) ==
+  IF ~Stage2On(s) THEN [ok |-> TRUE, pa |-> pa, ext |-> ext, unp |-> FALSE]
+  ELSE LET w == WalkS2(s, [pa |-> pa, ext |-> ext]) IN
+       IF w.f # "ok" THEN [ok |-> FALSE, pa |-> pa, ext |-> ext, unp |-> w.unp]
+       ELSE IF w.hap % 2 = 0 THEN [ok |-> FALSE, pa |-> pa, ext |-> ext, unp |-> w.unp]
+       ELSE IF HCR_PTW(s) = 1 /\ w.mt # "NORMAL" THEN [ok |-> FALSE, pa |-> pa, ext |-> ext, unp |-> w.unp]
+       ELSE [ok |-> TRUE, pa |-> w.pa, ext |-> w.ext, unp |-> w.unp]
+
 \* result of the walk: [f |-> "ok", pa, ext, domain, level, ap, texcb, sb (S bit), nsb (NS bit)] or [f |-> fault type, level, domain]
 WalkSD(s, mva) ==
   LET n0   == TTBCR_N(s)
@@ -55,15 +140,19 @@ WalkSD(s, mva) ==
       l1a  == WOr(WAnd(ttbr, TopMask(18 + n)), LSLw(ExtractW(mva, 31 - n, 20), 2))
   IN IF s.cfg.sec /\ dis THEN [f |-> "TRANSLATION", level |-> 1, domain |-> 0]
      ELSE
-     LET l1 == ReadDesc(s, l1a)
+     LET p1 == PTXlate(s, l1a, 0)                \* with stage 2 on, the descriptor address is an IPA
+         l1 == ReadDescAt(s, p1.pa, p1.ext)
          ty == Slice(l1, 1, 0)
-     IN IF ty = 0 THEN [f |-> "TRANSLATION", level |-> 1, domain |-> 0]
+     IN IF ~p1.ok THEN [f |-> "S2WALK", level |-> 1, domain |-> 0, s2unp |-> p1.unp]
+        ELSE IF ty = 0 THEN [f |-> "TRANSLATION", level |-> 1, domain |-> 0]
         ELSE IF ty = 1 THEN
           LET dom == Slice(l1, 8, 5)
               l2a == WOr(WAnd(l1, <<MM, MM - 1023>>), LSLw(ExtractW(mva, 19, 12), 2))
-              l2  == ReadDesc(s, l2a)
+              p2  == PTXlate(s, l2a, 0)
+              l2  == ReadDescAt(s, p2.pa, p2.ext)
               ap  == Bit(l2, 9) * 4 + Slice(l2, 5, 4)
-          IN IF Slice(l2, 1, 0) = 0 THEN [f |-> "TRANSLATION", level |-> 2, domain |-> dom]
+          IN IF ~p2.ok THEN [f |-> "S2WALK", level |-> 2, domain |-> dom, s2unp |-> p1.unp \/ p2.unp]
+             ELSE IF Slice(l2, 1, 0) = 0 THEN [f |-> "TRANSLATION", level |-> 2, domain |-> dom]
              ELSE IF SCTLR_AFE(s) = 1 /\ Bit(l2, 4) = 0
                   THEN IF SCTLR_HA(s) = 0 THEN [f |-> "ACCESS_FLAG", level |-> 2, domain |-> dom]
                        ELSE [f |-> "HWAF", level |-> 2, domain |-> dom]
@@ -141,8 +230,10 @@ WalkLDFrom(s, ia, level, first, startbit, base, tbl, unp) ==
   LET lsb   == 39 - 9 * level                                        \* lowest input-address bit of this level's index
       index == IF first THEN Slice(ia, startbit, lsb) ELSE Slice(ia, lsb + 8, lsb)
       la    == WOr(base[1], <<index \div 8192, (index % 8192) * 8>>)
-      d     == ReadDesc64(s, la, base[2])
-  IN IF Bit(d.lo, 0) = 0 THEN [f |-> "TRANSLATION", level |-> level, unp |-> unp]
+      pt    == PTXlate(s, la, base[2])              \* with stage 2 on, the descriptor address is an IPA
+      d     == ReadDesc64(s, pt.pa, pt.ext)
+  IN IF ~pt.ok THEN [f |-> "S2WALK", level |-> level, unp |-> unp \/ pt.unp]
+     ELSE IF Bit(d.lo, 0) = 0 THEN [f |-> "TRANSLATION", level |-> level, unp |-> unp]
      ELSE IF Bit(d.lo, 1) = 0 /\ level = 3 THEN [f |-> "TRANSLATION", level |-> level, unp |-> unp]
      ELSE IF Bit(d.lo, 1) = 1 /\ level < 3
      THEN WalkLDFrom(s, ia, level + 1, FALSE, startbit, <<WAnd(d.lo, <<MM, M - 4096>>), Slice(d.hi, 7, 0)>>,
@@ -150,12 +241,12 @@ WalkLDFrom(s, ia, level, first, startbit, base, tbl, unp) ==
                       user |-> tbl.user /\ Bit(d.hi, 29) = 0,    \* APTable<0>
                       xn   |-> tbl.xn \/ Bit(d.hi, 28) = 1, pxn |-> tbl.pxn \/ Bit(d.hi, 27) = 1,
                       sec  |-> tbl.sec /\ Bit(d.hi, 31) = 0],   \* NSTable: once set, the rest of the lookup is Non-secure
-                     unp)
+                     unp \/ pt.unp)
      ELSE \* block (levels 1, 2) or page (level 3)
        LET ap2 == IF tbl.rw THEN Bit(d.lo, 7) ELSE 1
            ap1 == IF tbl.user THEN Bit(d.lo, 6) ELSE 0
-       IN IF Bit(d.lo, 10) = 0 THEN [f |-> "ACCESS_FLAG", level |-> level, unp |-> unp]
-          ELSE [f |-> "ok", level |-> level, unp |-> unp, ap |-> ap2 * 4 + ap1 * 2 + 1,
+       IN IF Bit(d.lo, 10) = 0 THEN [f |-> "ACCESS_FLAG", level |-> level, unp |-> unp \/ pt.unp]
+          ELSE [f |-> "ok", level |-> level, unp |-> unp \/ pt.unp, ap |-> ap2 * 4 + ap1 * 2 + 1,
                 pa |-> WOr(WAnd(d.lo, TopMask(32 - lsb)), WAnd(ia, MaskW(lsb - 1, 0))), ext |-> Slice(d.hi, 7, 0),
                 mt |-> MAIRType(s, Slice(d.lo, 4, 2)),
                 at |-> MAIRAttrs(s, Slice(d.lo, 4, 2), Slice(d.lo, 9, 8)),
@@ -188,18 +279,17 @@ PermAbortV(ap0, afe, priv, iswrite) ==
     [] ap = 6 -> iswrite
     [] ap = 7 -> iswrite
 
-\* -> [x, pa, ext]   (ext = PA<39:32>, nonzero only for supersections)
-TranslateV(x, va, priv, iswrite, size, wasaligned) ==
+\* stage 1 -> [x, pa, ext]   (ext = PA<39:32>)
+TranslateS1(x, va, priv, iswrite, size, wasaligned) ==
   LET s     == x.s
       mva   == FCSETranslate(s, va)
       ishyp == Mode(s) = HYP
       on    == (ishyp /\ HSCTLR_M(s) = 1) \/ ((~ishyp) /\ SCTLR_M(s) = 1)
-      stage2 == s.cfg.virt /\ (~IsSecure(s)) /\ (~ishyp) /\ HCR_VM(s) = 1
-  IN IF stage2 THEN [x |-> NotImpl(x, "unmodelled:stage2"), pa |-> mva, ext |-> 0]
-     ELSE IF ~on THEN
-       \* stage 1 off: flat map, Strongly-ordered unless HCR.DC applies
+  IN IF ~on THEN
+       \* stage 1 off: flat map, Strongly-ordered unless HCR.DC applies (HCR.DC = 1 with HCR.VM = 0 is UNPREDICTABLE)
        LET so == (~s.cfg.virt) \/ HCR_DC(s) = 0 \/ IsSecure(s) \/ ishyp
-       IN IF (~wasaligned) /\ so
+       IN IF (~so) /\ HCR_VM(s) = 0 THEN [x |-> UnpredIf(x, TRUE), pa |-> mva, ext |-> 0]
+          ELSE IF (~wasaligned) /\ so
           THEN IF ishyp THEN [x |-> NotImpl(x, "unmodelled:hyp-abort"), pa |-> mva, ext |-> 0]
                ELSE [x |-> DataAbortSD(UnpredIf(x, ~s.cfg.virt), mva, iswrite, "ALIGNMENT", 1, 0), pa |-> mva, ext |-> 0]
           ELSE [x |-> x, pa |-> mva, ext |-> 0]
@@ -216,6 +306,7 @@ TranslateV(x, va, priv, iswrite, size, wasaligned) ==
      ELSE
        LET w == WalkSD(s, mva) IN
        IF w.f = "HWAF" THEN [x |-> NotImpl(x, "set_bits"), pa |-> mva, ext |-> 0]
+       ELSE IF w.f = "S2WALK" THEN [x |-> NotImpl(UnpredIf(x, w.s2unp), "stage2-fault-on-table-walk"), pa |-> mva, ext |-> 0]
        ELSE IF w.f # "ok" THEN [x |-> DataAbortSD(x, mva, iswrite, w.f, w.level, w.domain), pa |-> mva, ext |-> 0]
        ELSE IF SCTLR_TRE(s) = 0 THEN [x |-> NotImpl(x, "remap_regs_have_reset_values"), pa |-> w.pa, ext |-> w.ext]
        ELSE
@@ -230,9 +321,22 @@ TranslateV(x, va, priv, iswrite, size, wasaligned) ==
                  IF dac = 1 /\ PermAbortV(w.ap, SCTLR_AFE(s), priv, iswrite)
                  THEN [x |-> DataAbortSD(x2, mva, iswrite, "PERMISSION", w.level, w.domain), pa |-> w.pa, ext |-> w.ext]
                  ELSE [x |-> x2, pa |-> w.pa, ext |-> w.ext]
+\* both stages -> [x, pa, ext]
+TranslateV(x, va, priv, iswrite, size, wasaligned) ==
+  LET r1 == TranslateS1(UnpredIf(x, x.s.cfg.virt /\ (~IsSecure(x.s)) /\ Mode(x.s) # HYP /\ HCR_TGE(x.s) = 1 /\ SCTLR_M(x.s) = 1),
+                        va, priv, iswrite, size, wasaligned)
+      s  == x.s
+  IN IF (~Stage2On(s)) \/ ~Ok(r1.x) THEN r1
+     ELSE LET w2 == WalkS2(s, [pa |-> r1.pa, ext |-> r1.ext])
+              x2 == UnpredIf(r1.x, w2.unp)
+              S2Fault(xx) == NotImpl(xx, "stage2-fault")                  \* taken to Hyp mode: the emulator's unimplemented hooks
+          IN IF w2.f # "ok" THEN [x |-> S2Fault(x2), pa |-> r1.pa, ext |-> r1.ext]
+             ELSE IF (~wasaligned) /\ w2.mt \in {"SO", "DEV", "UNK"} THEN [x |-> S2Fault(x2), pa |-> w2.pa, ext |-> w2.ext]
+             ELSE IF (iswrite /\ w2.hap \div 2 = 0) \/ ((~iswrite) /\ w2.hap % 2 = 0) THEN [x |-> S2Fault(x2), pa |-> w2.pa, ext |-> w2.ext]
+             ELSE [x |-> x2, pa |-> w2.pa, ext |-> w2.ext]
 \* memory attributes and paddress.NS of the address descriptor a SUCCESSFUL stage-1 translation returns
 \* (evaluated by the Translate trace action only; ns = 2 means not claimed)
-AttrsV(s, va) ==
+AttrsS1(s, va) ==
   LET mva   == FCSETranslate(s, va)
       ishyp == Mode(s) = HYP
       on    == (ishyp /\ HSCTLR_M(s) = 1) \/ ((~ishyp) /\ SCTLR_M(s) = 1)
@@ -247,4 +351,11 @@ AttrsV(s, va) ==
      ELSE
        LET w == WalkSD(s, mva) IN
        IF w.f = "ok" THEN [at |-> RemapAttrs(s, w.texcb, w.sb), ns |-> nsOut(w.nsb)] ELSE [at |-> AttrUnknown, ns |-> 2]
+\* ... and of a successful two-stage translation: CombineS1S2Desc, the output address is Non-secure
+AttrsV(s, va) ==
+  LET a1 == AttrsS1(s, va) IN
+  IF ~Stage2On(s) THEN a1
+  ELSE LET r1 == TranslateS1(X0(s), va, TRUE, FALSE, 1, TRUE)
+           w2 == WalkS2(s, [pa |-> r1.pa, ext |-> r1.ext])
+       IN IF w2.f = "ok" THEN [at |-> CombineAttrs(a1.at, w2.at), ns |-> 1] ELSE [at |-> AttrUnknown, ns |-> 2]
 =============================================================================
